@@ -378,6 +378,40 @@ def endpoint_oracle(ctx, rng, variant, n_flows, n_mut):
                     if verdict == "accepted" and slot in ("userinfo", "introspection"):
                         if detail.get("sub") != f["sub"] or (detail.get("client") not in (None, f["client"])):
                             ctx.violation("resolves-elsewhere", "token of (%s,%s) resolved to %r" % (f["user"], f["client"], detail), rec)
+            # ---- history: once a value has been looked up without a class slot (introspection, revocation do that),
+            #      it must still be refused in every other class slot - at the session manager as the endpoints ask it,
+            #      and as bearer credential
+            for cls in ("access_token", "refresh_token", "id_token", "code"):
+                tid = f[cls]
+                real_cls = rs.tokobj[tid].token_class
+                val = rs.tokens[tid]
+                present(rs, "introspection", val, f["client"])
+                try:
+                    rs.sm.get_session_info_by_token(val, grant=True)
+                except Exception:
+                    pass
+                for hk in ("authorization_code", "access_token", "refresh_token"):
+                    if hk == real_cls:
+                        continue
+                    try:
+                        si = rs.sm.get_session_info_by_token(val, grant=True, handler_key=hk)
+                        ok = bool(si.get("grant"))
+                    except Exception:
+                        ok = False
+                    rec = {"variant": variant, "token_class": real_cls, "asked_as": hk, "after_generic_lookup": True, "resolved": ok}
+                    ctx.case_seen(rec, True)
+                    ctx.count("after-lookup:%s-as-%s:%s" % (real_cls, hk, "resolved" if ok else "refused"))
+                    if ok:
+                        ctx.violation("wrong-class-accepted", "after an introspection of the value, the session manager resolves a %s asked for as %s"
+                                      % (real_cls, hk), rec)
+                for slot in ("userinfo", "refresh", "code"):
+                    if slot in SLOT_OF.get(real_cls, []):
+                        continue
+                    verdict, detail = present(rs, slot, val, f["client"])
+                    ctx.case_seen({"variant": variant, "class": real_cls, "slot": slot, "second_pass": True, "verdict": verdict}, True)
+                    if verdict == "accepted":
+                        ctx.violation("wrong-class-accepted", "%s accepted in the %s slot after it had been introspected" % (real_cls, slot),
+                                      {"variant": variant, "class": real_cls, "slot": slot})
             # ---- mutants in their own slot
             for cls in ("access_token", "refresh_token", "code"):
                 tid = f[cls]
